@@ -199,7 +199,7 @@ func (h *verifRecHash) BlockSize() int              { return 64 }
 // optional duplicate, are reassembled by the real readHandshake into exactly the unfragmented encoding, which
 // is what the transcript receives.
 //
-//verif:harness props=C17,C09 paths=60000 reach=reassembled
+//verif:harness props=C17,C09,C19 paths=60000 reach=reassembled
 func VerifHarness_C17_reassemble() {
 	pmtu := verifSplitInt("pmtu", 27, 29)
 	st := &verifPConn{}
@@ -232,6 +232,8 @@ func VerifHarness_C17_reassemble() {
 	tr := &verifRecHash{}
 	msg, err := r.readHandshake(tr)
 	verifAssert("C17.reassemble.succeeds", err == nil && msg != nil)
+	// C19: datagrams of one message reordered (or one duplicated) by the network are not a fault the handshake may die of
+	verifAssert("C19.reorder.fragmentsInAnyOrderReassemble", err == nil && msg != nil)
 	if err != nil {
 		return
 	}
